@@ -297,3 +297,33 @@ impl Layers {
         found
     }
 }
+
+
+// ---------------------------------------------------------------------------------------------------------
+// read loops: a zero-length read must leave the loop (C15.R2 eof-leaves-loop)
+// ---------------------------------------------------------------------------------------------------------
+pub fn read_loop_eof_ok(r: &mut dyn std::io::BufRead) -> std::io::Result<usize> {
+    let mut line = String::new();
+    let mut total = 0;
+    loop {
+        let n = r.read_line(&mut line)?;
+        if n == 0 || !line.trim().is_empty() {
+            return Ok(total + n);
+        }
+        total += n;
+        line.clear();
+    }
+}
+
+/// tests the running total, not the count of this read: after one blank line EOF is never seen again
+pub fn read_loop_total_bad(r: &mut dyn std::io::BufRead) -> std::io::Result<usize> {
+    let mut line = String::new();
+    let mut total = 0;
+    loop {
+        total += r.read_line(&mut line)?;
+        if total == 0 || !line.trim().is_empty() {
+            return Ok(total);
+        }
+        line.clear();
+    }
+}
